@@ -10,8 +10,23 @@ Observe: DiskSpaceManager._clean is wrapped on the instance; before and after ev
 an independent snapshot (own sqlite3 connection with its own SQL + os.scandir of the blob directory);
 BlobManager.delete_blobs is wrapped to record the deletion order.
 Oracle: vlib/ref/cleanup.py (judge of a pre/post snapshot pair; cross-checked on fixed vectors in shard_setup).
+  U1 class within its limit (or content limit 0) => none of its blobs deleted      U2 is_mine blobs never deleted
+  U3 deleted blobs belong to an over-limit class, lose row AND file; survivors untouched
+  U4 enough removable whole-MiB credit => usage within the limit after the pass
+  U5 freed whole MiB minus the largest deleted blob < excess; nothing deleted after the goal was reached (order)
+  U0 / U6 usage figures and return values: compared, logged only (the statement is silent on them)
+
+Fires on the unchanged tree (both are code defects, see the final report of the builder):
+  C19/U1/deleted-while-within-limit/content   disk_space_manager.py:51  `a == 0 if not net else avail >= 0` parses as a
+      conditional expression: with a non-zero blob_storage_limit the content pass never short-circuits and deletes the
+      oldest removable blob on every pass although usage <= limit.
+  C19/U3/network-pass-deleted-stream-sd-blob  storage.py:449-455  the network-blob query ("stream_blob.stream_hash is
+      null") also returns the sd blobs of stored streams (they have no stream_blob row); when the whole-MiB credits of the
+      orphan blobs do not cover the excess (e.g. sub-MiB blobs, limit 0) the pass runs on into the sd blobs of every
+      downloaded stream although the content class is unlimited / within its limit.
 """
 import asyncio
+import atexit
 import hashlib
 import itertools
 import json
@@ -63,7 +78,9 @@ _TMP = {}
 
 
 def plan(tier):
-    return {'shards': 16, 'budget_s': 40 if tier == 'quick' else 640}
+    # vlib.core counts the budget in CPU seconds of the shard and caps wall time at 2.5x the budget; the shards here
+    # are latency-bound (executor round trips, ~40 % CPU), so the wall cap is what matters: 55 s quick, 850 s thorough
+    return {'shards': 16, 'budget_s': 22 if tier == 'quick' else 340}
 
 
 def shard_setup(rec, tier):
@@ -71,6 +88,7 @@ def shard_setup(rec, tier):
     rec.note('reference_model_fixed_vectors_passed', n)
     base = '/dev/shm' if os.path.isdir('/dev/shm') and os.access('/dev/shm', os.W_OK) else None
     _TMP['dir'] = tempfile.mkdtemp(prefix='verif-c19-', dir=base)
+    atexit.register(shutil.rmtree, _TMP['dir'], ignore_errors=True)     # also on a harness error
 
 
 def shard_finish(rec, tier):
@@ -216,7 +234,7 @@ def gen_cases(rng, tier, shard, nshards):
     if shard == 0:      # minimal scenarios first, so that the first witness of a mechanism is a small one
         for i, spec in enumerate(fixed_specs()):
             yield {'fam': 'spec', 'name': f'fixed{i}', 'spec': spec}
-    n = 400 if tier == 'quick' else 24000
+    n = 400 if tier == 'quick' else 14000
     for i in range(n):
         x = rng.random()
         scale = 'tiny' if x < .4 else ('small' if x < .85 else 'medium')
